@@ -135,13 +135,11 @@ Definition w_single_float := (cfg_flat, OFlt FSingle [49; 46; 53]).
 Definition w_integral_double := (cfg_flat, OFlt FDouble [49]).
 (* 3/4 in base 2 with *print-radix*: #b11/100 *)
 Definition w_ratio_radix := (Pcfg 2 true CDown false 80 true true true, ORat 3 4).
-(* a 2x2 array with *print-radix*: the rank is printed as an integer, #2.A((1. 2.) (3. 4.)) *)
-Definition w_array_radix := (Pcfg 10 true CDown false 80 true true true, OArr 2 [OList [fx 1; fx 2]; OList [fx 3; fx 4]]).
 (* the symbol named t is printed t (the suite pins this: the symbol t doubles as the name of the type t) *)
 Definition w_symbol_t := (cfg_flat, OSym [116]).
 
 Definition refutation_witnesses : list (pcfg * obj) :=
-  [w_string_quote; w_single_float; w_integral_double; w_ratio_radix; w_array_radix; w_symbol_t].
+  [w_string_quote; w_single_float; w_integral_double; w_ratio_radix; w_symbol_t].
 Theorem outside_guard_refuted : forallb (fun w => refuted (fst w) (snd w)) refutation_witnesses = true.
 Proof. vm_compute. reflexivity. Qed.
 (* what the model makes of some of them *)
@@ -168,8 +166,9 @@ Example paren_character_by_code : model_text cfg_flat (OChr 40) = Some [35; 92; 
 Proof. vm_compute. split; reflexivity. Qed.
 Example integral_double_reads_fixnum : model_read (model_text (fst w_integral_double) (snd w_integral_double)) = Some [OInt false 1].
 Proof. vm_compute. reflexivity. Qed.
-Example array_radix_text : model_text (fst w_array_radix) (snd w_array_radix) =
-  Some [35; 50; 46; 65; 40; 40; 49; 46; 32; 50; 46; 41; 32; 40; 51; 46; 32; 52; 46; 41; 41].
+(* repaired (C03-14): the rank of an array is printed in decimal, the elements follow *print-radix* *)
+Example array_radix_text : model_text (Pcfg 10 true CDown false 80 true true true) (OArr 2 [OList [fx 1; fx 2]; OList [fx 3; fx 4]]) =
+  Some [35; 50; 65; 40; 40; 49; 46; 32; 50; 46; 41; 32; 40; 51; 46; 32; 52; 46; 41; 41].
 Proof. vm_compute. reflexivity. Qed.
 (* repaired (C03-2, C03-4): (||) under :capitalize neither faults nor loses its bars *)
 Example empty_symbol_capitalize_prints :
@@ -187,8 +186,7 @@ Definition ex_obj : obj :=
          OArr 2 [OList [fx 1; fx 2]; OList [fx 3; fx 4]];
          ORat 2 3; ONil; OTrue; OFlt FDouble [49; 46; 53; 100; 43; 48; 48]].
 Definition ex_cfg_flat : pcfg := Pcfg 10 false CUp false 80 true true true.
-(* the same without the ratio and the array (they need base ten without radix), the symbol with a blank
-   at top level of a vector only when flat *)
+(* the same without the ratio (it needs base ten without radix) *)
 Definition ex_obj2 : obj :=
   OList [OList [OSym [102; 111; 111]; OSym [58; 107; 101; 121]];
          OVec [fx 1; fx (-255); OStr [97; 34; 98; 10]; OChr 32; OChr 955];
